@@ -83,6 +83,8 @@ def pair(ctx, scns):
         d["pol"] = {"delay": [-1], "spur": [0]}
         d["wmode"] = i % 3
         d["via"] = ("direct", "from", "direct", "router", "direct", "router-from")[i % 6]
+        if "PDecoy" in d["hist"]:        # a schedule of the model with the filter adapter: rejected items are pushed where it says
+            d["via"] = ("filter", "router-filter")[i % 2]
     return out
 
 
@@ -134,10 +136,13 @@ def pipeline(ctx):
     ctx.tlc("Sse", "MC_Sse.cfg" if q else "MC_Sse_deep.cfg", workers=8, coverage=not q, timeout=900)
     ctx.tlc("Sse", "MC_Sse_nowaker.cfg", workers=1, expect_violation=True)
     ctx.tlc("Sse", "MC_Sse_nodrain.cfg", workers=1, expect_violation=True)
+    # the same design behind the adapter StreamExt::filter (rejected items in the queue); an adapter that answers a rejected item with Pending never ends
+    ctx.tlc("Sse", "MC_Sse_filter.cfg", workers=4, timeout=900)
+    ctx.tlc("Sse", "MC_Sse_filterpending.cfg", workers=1, expect_violation=True)
     ctx.tlc("MC_Sse", "MC_Sse_frame.cfg" if q else "MC_Sse_frame_deep.cfg", workers=8, timeout=900)
     # scenarios
     scns = []
-    for cfg in (("Gen_Sse_sched.cfg", "Gen_Sse_frame.cfg") if q else ("Gen_Sse_sched_deep.cfg", "Gen_Sse_frame_deep.cfg")):
+    for cfg in (("Gen_Sse_sched.cfg", "Gen_Sse_sched_filter.cfg", "Gen_Sse_frame.cfg") if q else ("Gen_Sse_sched_deep.cfg", "Gen_Sse_sched_filter.cfg", "Gen_Sse_frame_deep.cfg")):
         g = ctx.tlc("SseGen", cfg, workers=4, timeout=900)
         if not g.lines:
             raise ToolError("SseGen/%s generated no scenario" % cfg)
